@@ -183,7 +183,7 @@ VF_PROPERTY(json_forward, 5, "dynamic trees (depth <= 3; null, bool, int64/uint6
 }
 
 VF_PROPERTY(json_converse, 5, "the same trees rendered by an independent emitter with free white space (SP, HT, LF, CR), any mix of raw / short / \\uXXXX escapes (surrogate pairs for astral characters, upper or lower hex), permuted members, floating values re-spelled (%g/%e/%E with 17..22 digits, exponent with leading zeros or '+', integral values as integer literals or x.0), in memory or as a stream in 5 encodings with or without BOM; every emitted document is first accepted by nlohmann with the same data model (self-check); oracle: loading into a target of the tree's shape yields the same tree; non-trivial = an escape, a permutation or a non-UTF-8 encoding was used") {
-	GenCtx g = GenCtx::forArch(JSON); Cfg cfg; cfg.stream = c.src.coin(); cfg.streamKind = cfg.stream ? static_cast<int>(c.src.draw(3)) : 0; cfg.chunk = 1 + c.src.draw(40);
+	GenCtx g = GenCtx::forArch(JSON); Cfg cfg; cfg.stream = c.src.coin(); cfg.streamKind = cfg.stream ? static_cast<int>(c.src.draw(4)) : 0; cfg.chunk = 1 + c.src.draw(40);
 	const int enc = cfg.stream ? static_cast<int>(c.src.draw(5)) : 0; const bool bom = cfg.stream && c.src.coin(); g.noNulChar = cfg.stream && !bom;   // soundness rule 1
 	size_t keyIdx = 0; Val v = gen_tree(c.src, g, 3, keyIdx);
 	if (cfg.stream && !bom && enc != 0 && v.t != RT::Arr && v.t != RT::Map) v = refmp::mkArr({ v });   // a BOM-less UTF-16/32 stream needs two ASCII characters to be detectable
